@@ -496,7 +496,19 @@ InPlace(st, t, newc, srcs, oldIsInput) ==
       n == Len(st.mem[b])
       const == st.H[r].const
       fam == Family(st, r)
-      raw  == TLCEval([c \in 1..n |-> IF c \in DOMAIN newc THEN newc[c] ELSE st.mem[b][c]])
+      \* MyGrad performs the update on `base.copy()`.  For a root that owns its buffer the copy has the same layout; a
+      \* root that does NOT own its memory (a disconnected view that became a base of its own) is compacted by the copy:
+      \* only its own cells survive, laid out the way np.copy ("K" order) lays them out
+      rs == st.H[r]
+      compact == st.N[rs.node].buf = 0 /\ Size(rs.sh) >= 1
+      nr == Size(rs.sh)
+      lay == IF compact THEN ElementwiseLayout(st, <<[h |-> r]>>, rs.sh) ELSE <<>>
+      old2new(c) == IF compact THEN lay[CHOOSE p \in 1..nr : rs.imap[p] = c] ELSE c
+      raw  == IF compact
+              THEN TLCEval([cn \in 1..nr |-> LET p == CHOOSE q \in 1..nr : lay[q] = cn
+                                               c == rs.imap[p]
+                                           IN IF c \in DOMAIN newc THEN newc[c] ELSE st.mem[b][c]])
+              ELSE TLCEval([c \in 1..n |-> IF c \in DOMAIN newc THEN newc[c] ELSE st.mem[b][c]])
       \* gradients: the family's gradient is gone; so is that of owners used as value operands
       \* KNOWN FINDING F-C09-1 (trigger): an operation recorded BEFORE some clear_graph/backward emptied the
       \* consumer set of a family member still consumes that member; MyGrad's in-place machinery re-routes
@@ -522,10 +534,13 @@ InPlace(st, t, newc, srcs, oldIsInput) ==
                  \o (IF t # r /\ oldIsInput THEN <<oldn(t)>> ELSE <<>>) \o OpNodes(st, srcs)
       st2 == NewNodeB(st1, rootpar, const, TRUE, nb)
       st3 == [st2 EXCEPT !.H = [h \in DOMAIN @ |->
-                                  IF h = r THEN [@[h] EXCEPT !.buf = nb, !.node = Len(st2.N), !.base = 0, !.par = 0]
+                                  IF h = r THEN [@[h] EXCEPT !.buf = nb, !.node = Len(st2.N), !.base = 0, !.par = 0,
+                                                            !.imap = [k \in 1..Len(@) |-> old2new(@[k])]]
                                   \* (re-created views hang off the root of THIS update: when the target had detached
                                   \*  from a lingering base, its registered views follow it)
-                                  ELSE IF h \in fam THEN [@[h] EXCEPT !.buf = nb, !.base = r] ELSE @[h]]]
+                                  ELSE IF h \in fam THEN [@[h] EXCEPT !.buf = nb, !.base = r,
+                                                                      !.imap = [k \in 1..Len(@) |-> old2new(@[k])]]
+                                  ELSE @[h]]]
   IN Recreate(st3, fam \ {r})
 
 \* NumPy's rule for assigning a value of shape vs into a selection of shape ish
